@@ -223,7 +223,7 @@ func c12RegMisc() {
 		}
 		return s
 	}
-	argv := func(s c12Step) []any { return c12Anys(c12Step{S: s.S, I: s.I[1:]}) }
+	argv := func(s c12Step) []any { return c12Anys(c12Step{S: s.S, I: s.I[1:], V: s.V}) }
 	c12Reg("Eval", &c12Entry{typ: "script", mtype: "*", weight: 4, gen: scriptGen,
 		wrap: func(e *c12Env, ctx context.Context, s c12Step) (any, error) {
 			if s.X {
